@@ -14,6 +14,7 @@ import Dassh.Model.Pin
 import Dassh.Model.Regions
 import Dassh.Model.HotspotSort
 import Dassh.Model.FlowSplit
+import Dassh.Model.AcceptRegions
 
 open Dassh.Model
 
@@ -140,6 +141,20 @@ def handle (line : String) : String :=
     let (bs, zs) := splitBar rest
     match natList bs, natList zs with
     | some b, some z => "ok " ++ showNats (z.map (Regions.activeRegion b))
+    | _, _ => "bad-op"
+  | "regions" :: rest =>
+    -- regions L | lo hi lo hi ...   (AcceptRegions.checkRegions / roddedBnds on the user's pairs, in the user's order)
+    let (hd, ps) := splitBar rest
+    let rec pairUp : List Float → Option (List (Float × Float))
+      | [] => some []
+      | a :: b :: t => (pairUp t).map ((a, b) :: ·)
+      | _ => none
+    match floatList hd, (floatList ps).bind pairUp with
+    | some [len], some regs =>
+      (match AcceptRegions.checkRegions len regs with
+       | .ok () => let b := AcceptRegions.roddedBnds len regs; "ok " ++ showFloats [b.1, b.2]
+       | .error e => "err " ++ (match e with
+          | .nonPositiveHeight => "height" | .overlap => "overlap" | .multipleRodded => "multiple" | .noRodded => "norods"))
     | _, _ => "bad-op"
   | "clamp" :: rest =>
     -- clamp m | lims...   (Orifice.clampGroup)
